@@ -6,7 +6,14 @@ import vf
 from checks import st_common
 
 PROP = "C03"
-MATCHERS = {}
+def _m_all_ignored(dev):
+    """C03-all-ignored-cache-recomputed: only the range after initialize_filtration(true), only when the specification
+    expects it EMPTY (every simplex has an infinite value) and the library lists simplices."""
+    ds = dev.get("diffs", [])
+    return bool(ds) and all(d["path"] == "obs.filt_noinf" and d.get("exp") == [] and d.get("got") for d in ds)
+
+
+MATCHERS = {"C03-all-ignored-cache-recomputed": _m_all_ignored}
 C03_OPS = ("make_non_decreasing", "prune_filt", "assign", "extend")
 
 
